@@ -593,6 +593,11 @@ func (h *Harness) buildTypes() {
 			fields = append(fields, reflect.StructField{Name: "EmbeddedZz", Type: reflect.StructOf(emb), Anonymous: true})
 		}
 		h.rtypes[t.Name] = reflect.StructOf(fields)
+		defer func(t *model.TypeDef) {
+			if t.GoAs != "" && h.rtypes[t.GoAs] != nil {
+				h.rtypes[t.Name] = h.rtypes[t.GoAs]
+			}
+		}(t)
 		if !abstract && i%4 == 3 && len(fields) > 2 {
 			// a second Go struct type for the same GraphQL object type: same field names, opposite order, a marker of its
 			// own. It is never registered; under object-typed positions reflection finds its fields by name all the same.
@@ -670,7 +675,11 @@ func (h *Harness) reflectObj(n *model.Node) interface{} {
 			cv = typedSlice(cv)
 		}
 		goName := GoFieldName(f.Name)
-		if rn := h.renamed[n.Type][f.Name]; rn != "" {
+		rnType := n.Type
+		if td.GoAs != "" {
+			rnType = td.GoAs // served by that type's Go struct, renamed fields included
+		}
+		if rn := h.renamed[rnType][f.Name]; rn != "" {
 			goName = rn
 		}
 		pv.Elem().FieldByName(goName).Set(reflect.ValueOf(cv))
@@ -714,7 +723,14 @@ func (h *Harness) register() error {
 		if err := h.Root.RegisterType(reflect.New(rt).Interface(), name); err != nil {
 			return fmt.Errorf("RegisterType(%s): %w", name, err)
 		}
-		for gf, goName := range h.renamed[name] {
+		rnType := name
+		if td := h.S.Type(name); td != nil && td.GoAs != "" {
+			rnType = td.GoAs
+		}
+		for gf, goName := range h.renamed[rnType] {
+			if td := h.S.Type(name); td == nil || td.Field(gf) == nil {
+				continue
+			}
 			if err := h.Root.RegisterField(name, gf, goName); err != nil {
 				return fmt.Errorf("RegisterField(%s, %s, %s): %w", name, gf, goName, err)
 			}
